@@ -1751,6 +1751,32 @@ fn c01gen(tr: &mut Option<std::fs::File>) {
             }
         }
     }
+    // 3e0. a context rule whose records act on a position an EARLIER record of the same rule has deleted (MultipleSubst with
+    //      an empty sequence shrinks the buffer but not the list of match positions), with the match at the very end of the
+    //      text, in the middle, and repeated
+    {
+        for dpos in 0..3u16 {
+            for (ri, second) in [0u16, 1, 2].iter().enumerate() {
+                for (ki, kind) in ["single", "delete", "grow"].iter().enumerate() {
+                    let mut f = FontSpec::basic(8);
+                    let del = Lookup::one(SubstSubtable::Multiple { coverage: Coverage::Glyphs(vec![1, 2, 3]), sequences: vec![vec![], vec![], vec![]] });
+                    let other = match *kind {
+                        "single" => Lookup::one(SubstSubtable::Single1 { coverage: Coverage::Glyphs(vec![1, 2, 3]), delta: 3 }),
+                        "delete" => del.clone(),
+                        _ => Lookup::one(SubstSubtable::Multiple { coverage: Coverage::Glyphs(vec![1, 2, 3]), sequences: vec![vec![4, 4], vec![5, 5], vec![6, 6]] }),
+                    };
+                    let ctx = SubstSubtable::Context3 { coverages: vec![Coverage::Glyphs(vec![1]), Coverage::Glyphs(vec![2]), Coverage::Glyphs(vec![3])], lookups: vec![SeqLookup { sequence_index: dpos, lookup_index: 1 }, SeqLookup { sequence_index: *second, lookup_index: 2 }, SeqLookup { sequence_index: 2, lookup_index: 2 }] };
+                    f.gsub = Some(Layout::single_feature_top(*b"liga", 1, vec![Lookup::one(ctx), del, other]));
+                    for gl in [vec![1u32, 2, 3], vec![3, 1, 2, 3], vec![1, 2, 3, 1, 2, 3], vec![1, 2, 3, 3], vec![3, 3, 3, 1, 2, 3]] {
+                        let text: Vec<(u32, u32)> = gl.iter().enumerate().map(|(i, g)| (pua(*g - 1), i as u32)).collect();
+                        for dir in [Direction::LeftToRight, Direction::RightToLeft] {
+                            run_case(&format!("record-on-deleted-position-{}-{}-{}", dpos, ri, ki), &f, Req { text: text.clone(), flags: 3, dir: Some(dir), ..Default::default() }, &mut cnt, tr);
+                        }
+                    }
+                }
+            }
+        }
+    }
     // 3e. attachment lookups nested in a GPOS context whose sequence-lookup records are NOT in ascending order (or repeat):
     //     the nested lookup then runs with the cursor moved BACK, on texts that start with a mark or have marks without
     //     any base in front (the attachment target search must not keep an index from the later position)
